@@ -22,6 +22,7 @@ without its file (sig abort_lost_file; pop/pull variant abort_lost_file_pop); an
 file-backed value leaves that file behind (sig abort_orphan_file).  Everything else gets another sig.
 """
 import os
+import random
 import shutil
 import tempfile
 import time as _time
@@ -46,6 +47,8 @@ ASSUMPTIONS = [
     'an exception raised inside nested blocks propagates to the outermost block (it is not caught between two block levels)',
     'default settings (no statistics, least-recently-stored), so lookups take no lock; clock frozen during a run',
     'FanoutCache blocks: concurrent writers use retry=True (a timed-out FanoutCache call is indistinguishable from a miss; see C14)',
+    'maintenance family (another client\'s check / check(fix=True) against a block): monitor only; what check() itself returns or raises while others work is not '
+    'decided here (on the unchanged tree check(fix=True) can raise OperationalError from its VACUUM and FileNotFoundError from its directory pruning)',
 ]
 
 SETTINGS = {'disk_min_file_size': 8}
@@ -635,6 +638,239 @@ def handover_cases(ctx):
 
 
 # ---------------------------------------------------------------------------
+# maintenance by another client while a block is open: the library's own check() / check(fix=True) (Cache, FanoutCache, the cache of a
+# Deque / Index) is "another client's action" like any write.  Client 0 runs a block that stores, replaces and pops FILE-BACKED values
+# (and commits or raises); client 1 runs check.  Every placement of the block inside the check and of the check inside the block.
+
+
+def maint_interp(obj, kind, calls, records):
+    """a client program for sched.Scheduler: the calls of concdrv.apply_call plus begin_block / end_block / raise_in_block and
+    {'op': 'check', 'fix': bool, 'retry': bool}; exceptions of single calls are caught by the program, like `try: ... except Exception`"""
+    stack = []
+    skip = False
+    for j, call in enumerate(calls):
+        op = call['op']
+        rec = {'index': j, 'op': op}
+        records.append(rec)
+        if skip and op != 'end_block':
+            rec['skipped'] = True
+            continue
+        try:
+            if op == 'begin_block':
+                cm = obj.transact() if kind in ('deque', 'index', 'fanout') else obj.transact(retry=True)
+                cm.__enter__()
+                stack.append(cm)
+                rec['result'] = 'opened'
+            elif op == 'end_block':
+                if skip:
+                    skip = False
+                    rec['skipped'] = True
+                elif stack:
+                    stack.pop().__exit__(None, None, None)
+                    rec['result'] = 'closed'
+            elif op == 'raise_in_block':
+                exc = concdrv.BlockAbort('raise_in_block')
+                while stack:
+                    stack.pop().__exit__(type(exc), exc, None)
+                rec['result'] = 'raised'
+                skip = True
+            elif op == 'check':
+                target = obj.cache if kind in ('deque', 'index') else obj
+                ws = target.check(fix=call.get('fix', False), retry=call.get('retry', False))
+                rec['result'] = sorted(set(w.category.__name__ for w in ws))
+            else:
+                rec['result'] = concdrv.jsonable(concdrv.apply_call(obj, call, kind))
+        except Exception as e:  # noqa
+            rec['exc'] = type(e).__name__
+    while stack:
+        try:
+            stack.pop().__exit__(None, None, None)
+        except Exception:  # noqa
+            pass
+    return records
+
+
+def maint_run(ctx, case, schedule):
+    """-> dict(dir, calls=[records per client], errors, log, overflow, schedule_used, clock)"""
+    import sched
+    kind, shards = case['kind'], case.get('shards', 2)
+    d = concdrv.scratch(ctx, 'c06m')
+    clock = instr.Clock(c05.NOW)
+    with instr.Installed(clock):
+        so = concdrv.make_object(kind, d, SETTINGS, timeout=60, shards=shards)
+        try:
+            concdrv.run_sequential(so, kind, case['setup'])
+        finally:
+            concdrv.close_object(so)
+        if schedule is None:            # reference: the programs one after the other, no scheduler
+            recs = []
+            for prog in case['programs']:
+                o = concdrv.make_object(kind, d, SETTINGS, timeout=60, shards=shards)
+                try:
+                    recs.append(maint_interp(o, kind, prog, []))
+                finally:
+                    concdrv.close_object(o)
+            return {'dir': d, 'calls': recs, 'errors': [None] * len(recs), 'log': [], 'overflow': False, 'schedule_used': [], 'clock': clock}
+        objs = [concdrv.make_object(kind, d, SETTINGS, timeout=0, shards=shards) for _ in case['programs']]
+        for o in objs:
+            concdrv.close_object(o)
+        s = sched.Scheduler(clock, max_steps=6000, sleep_advances=False, after_txn=True)
+        recs = [[] for _ in objs]
+
+        def prog(i):
+            def p():
+                try:
+                    return maint_interp(objs[i], kind, case['programs'][i], recs[i])
+                finally:
+                    concdrv.close_object(objs[i])
+            return p
+        r = s.run([prog(i) for i in range(len(objs))], list(schedule), warmups=[concdrv.warm(o) for o in objs])
+        for o in objs:
+            concdrv.close_object(o)
+    return {'dir': d, 'calls': recs, 'errors': [None if e is None else repr(e) for e in r['errors']], 'log': r['log'], 'overflow': r['overflow'],
+            'schedule_used': r['schedule_used'], 'clock': clock}
+
+
+def maint_snapshot(r, case):
+    with instr.Installed(r['clock']):
+        snap = concdrv.api_snapshot(r['dir'], case['kind'], shards=case.get('shards', 2), with_check=True)
+    snap['items'] = sorted(snap['items'], key=repr)
+    snap['check'] = [w for w in snap['check'] if not w.startswith('EmptyDirWarning')]          # (an empty directory is harmless)
+    return snap
+
+
+_MAINT_REF = {}
+
+
+def maint_check(ctx, case, stats=None):
+    """Run one scheduled case and decide it.  What the block client's program leaves behind does not depend on the other client (check
+    changes nothing in a consistent directory; the block waits for the lock): the reference is the two programs run one after the other.
+    -> [(sig, desc)]"""
+    kind = case['kind']
+    refkey = repr((kind, case.get('shards', 2), case['setup'], case['programs']))
+    if refkey not in _MAINT_REF:
+        ref = maint_run(ctx, case, None)
+        _MAINT_REF.clear()
+        _MAINT_REF[refkey] = maint_snapshot(ref, case)
+        shutil.rmtree(ref['dir'], ignore_errors=True)
+    want = _MAINT_REF[refkey]
+    r = maint_run(ctx, case, case['schedule'])
+    out = []
+    try:
+        if r['overflow']:
+            return [('step_budget_overflow', 'the run did not terminate within the step budget')], r
+        for i, e in enumerate(r['errors']):
+            if e is not None:
+                out.append(('client_error', 'client %d died with %s' % (i, e)))
+        for i, recs in enumerate(r['calls']):
+            for rec in recs:
+                # (what check() itself answers or raises while others work is not this property's business -- on the unchanged tree
+                #  check(fix=True) can raise OperationalError from its VACUUM while the lock is held and FileNotFoundError when a committed
+                #  block's own file cleanup prunes a directory first; only what it does to the BLOCK is decided here)
+                if rec.get('exc') and rec['exc'] not in OK_EXC and rec['op'] != 'check':
+                    out.append(('unexpected_exception:%s' % rec['exc'], 'client %d call %d (%s) raised %s' % (i, rec['index'], rec['op'], rec['exc'])))
+        if out:
+            return out, r
+        try:
+            snap = maint_snapshot(r, case)
+        except Exception as e:  # noqa
+            return [('unusable_after_run', 'the directory cannot be opened/read after all clients finished: %r' % e)], r
+        aborted = any(rec['op'] == 'raise_in_block' and rec.get('result') == 'raised' for rec in r['calls'][0])
+        chk = ['%s(fix=%s) -> %s' % (rec['op'], case['programs'][1][rec['index']].get('fix', False), rec.get('result', rec.get('exc')))
+               for rec in r['calls'][1] if rec['op'] == 'check']
+        where = 'client 1: %s; steps of client 0 / 1: %s' % ('; '.join(chk), ''.join(str(c) for c in r['schedule_used'][:120]))
+        if snap['items'] != want['items'] or snap['len'] != want['len']:
+            lost = [x for x in want['items'] if x not in snap['items']]
+            extra = [x for x in snap['items'] if x not in want['items']]
+            out.append(('block_torn_by_check' if not aborted else 'aborted_block_torn_by_check',
+                        'a block that %s while another client ran check: afterwards the cache holds %s where the block alone leaves %s (len %d / %d) [%s]'
+                        % ('raised' if aborted else 'completed', [x[:3] for x in extra] or 'nothing else', [x[:3] for x in lost] or 'the same', snap['len'], want['len'], where)))
+        for sig, text in consistency(r['dir'], kind, case.get('shards', 2))[:2]:
+            out.append((sig, '%s [after a block overlapped by another client\'s check; %s]' % (text, where)))
+        if snap['check'] and not out:
+            out.append(('check_reports_after_block', 'check() on the quiescent directory reports %s [%s]' % (snap['check'][:3], where)))
+        if stats is not None:
+            stats['maintenance_runs'] = stats.get('maintenance_runs', 0) + 1
+            stats['maintenance_check_outcomes'] = stats.get('maintenance_check_outcomes', {})
+            for rec in r['calls'][1]:
+                if rec['op'] == 'check':
+                    k = rec.get('exc') or 'returned'
+                    stats['maintenance_check_outcomes'][k] = stats['maintenance_check_outcomes'].get(k, 0) + 1
+        return out, r
+    finally:
+        shutil.rmtree(r['dir'], ignore_errors=True)
+
+
+def maint_programs(kind, abort, fix, retry):
+    t = True
+    if kind in ('cache', 'fanout'):
+        keys = ['j', 'k', 'old', 'p', 'q'] if kind == 'cache' else ['j', 'k', 'old', 'p', 'q', 'r']
+        setup = [{'op': 'set', 'key': 'old', 'value': BIG}, {'op': 'set', 'key': 'p', 'value': BIG2}, {'op': 'set', 'key': 'q', 'value': 3}]
+        body = [{'op': 'set', 'key': 'j', 'value': 1, 'retry': t}, {'op': 'set', 'key': 'k', 'value': 'K' + BIG, 'retry': t},
+                {'op': 'set', 'key': 'old', 'value': 'N' + BIG2, 'retry': t}, {'op': 'pop', 'key': 'p', 'retry': t}, {'op': 'incr', 'key': 'q', 'retry': t}]
+        if kind == 'fanout':
+            body.append({'op': 'add', 'key': 'r', 'value': 'R' + BIG, 'retry': t})
+    elif kind == 'index':
+        setup = [{'op': 'setitem', 'key': 'old', 'value': BIG}, {'op': 'setitem', 'key': 'p', 'value': BIG2}]
+        body = [{'op': 'setitem', 'key': 'j', 'value': 1}, {'op': 'setitem', 'key': 'k', 'value': 'K' + BIG}, {'op': 'setitem', 'key': 'old', 'value': 'N' + BIG2},
+                {'op': 'pop', 'key': 'p'}]
+    else:
+        setup = [{'op': 'append', 'value': BIG}, {'op': 'append', 'value': 2}]
+        body = [{'op': 'append', 'value': 'K' + BIG}, {'op': 'appendleft', 'value': 1}, {'op': 'setitem', 'index': 1, 'value': 'N' + BIG2}, {'op': 'pop'}]
+    block = [{'op': 'begin_block'}] + body + ([{'op': 'raise_in_block'}] if abort else []) + [{'op': 'end_block'}]
+    return setup, [block, [{'op': 'check', 'fix': fix, 'retry': retry}]]
+
+
+def maintenance_cases(ctx, thorough):
+    """For kind x {commit, abort} x check(fix) x check(retry): the check's first i events, then the block's first j events, then the rest of the
+    check, then the rest of the block -- and the mirror image (block first).  Events include the points right after BEGIN / COMMIT / ROLLBACK."""
+    out = []
+    plans = [('cache', False, True, False), ('cache', True, True, True), ('fanout', False, True, False), ('cache', False, False, False)]
+    if thorough:
+        plans = [(k, a, f, rt) for k in ('cache', 'fanout', 'index', 'deque') for a in (False, True) for f in (True, False) for rt in (False, True)]
+    else:
+        plans += [[('index', False, True, False), ('deque', True, True, False)][ctx.seed % 2]]
+    tail = ([1] * 30 + [0] * 30) * 60
+    for kind, abort, fix, retry in plans:
+        setup, programs = maint_programs(kind, abort, fix, retry)
+        base = {'check': 'maintenance', 'kind': kind, 'shards': 2, 'setup': setup, 'programs': programs}
+        solo = maint_run(ctx, base, [0] * 3000 + [1] * 3000)
+        n = [sum(1 for c, _, _ in solo['log'] if c == i) for i in (0, 1)]
+        shutil.rmtree(solo['dir'], ignore_errors=True)
+        # the check's prefix: every event of it (FanoutCache, quick tier: every second); the block's prefix: a third, two thirds, all of it
+        # (thorough: every second position)
+        js = sorted(set(range(0, n[0] + 1, 2))) if thorough else [n[0] // 3, 2 * n[0] // 3, n[0]]
+        for i in range(0, n[1] + 1, 1 if thorough or kind != 'fanout' else 2):
+            for j in js:
+                out.append(dict(base, schedule=[1] * i + [0] * j + [1] * 400 + tail, label='check %d events, block %d events, rest of check' % (i, j)))
+        iss = range(0, n[1] + 1) if thorough else [2, n[1] // 2, n[1]]
+        for j in range(1, n[0] + 1, 1 if thorough else 3):
+            for i in iss:
+                out.append(dict(base, schedule=[0] * j + [1] * i + [0] * 400 + tail, label='block %d events, check %d events, rest of block' % (j, i)))
+    if thorough:
+        random.Random(ctx.seed).shuffle(out)          # the time budget of the thorough tier then samples every plan alike
+    return out
+
+
+def maintenance(ctx, res, stats, thorough, deadline):
+    seen = set()
+    n = 0
+    for case in maintenance_cases(ctx, thorough):
+        label = case.pop('label')
+        viol, r = maint_check(ctx, case, stats)
+        n += 1
+        res.count(['maintenance', case['kind'], case['programs'], r['schedule_used']], nontrivial=True)
+        for sig, desc in viol[:2]:
+            if sig not in seen:
+                seen.add(sig)
+                res.violations.append(fw.Violation(sig, '%s [%s, %s]' % (desc, label, case['kind']), dict(case, schedule=r['schedule_used'], label=label)))
+        if _time.time() > deadline:
+            stats['maintenance_cut_short'] = True
+            break
+    stats['maintenance_cases'] = n
+
+
+# ---------------------------------------------------------------------------
 # running
 
 
@@ -700,7 +936,10 @@ def run(ctx, big=False):
                 'or one shared object; random fine/coarse schedules + hand-picked ones.  Monitors: abort snapshot equality through the API, '
                 'final bookkeeping, linearizability with the block as one atomic action, BEGIN/COMMIT/ROLLBACK placement in the event log, no '
                 'foreign writing statement inside an open block.  non-trivial = at least two clients or an aborted block; distinct = distinct '
-                '(programs, setup, executed schedule, kind, mode).')
+                '(programs, setup, executed schedule, kind, mode).  Maintenance: a block that stores, replaces and pops file-backed values (commit and raise; '
+                'Cache, FanoutCache, Index, Deque) against another client\'s check() / check(fix=True) (retry on / off): the check\'s first i events, then the '
+                'block\'s first j events, then the rest of each, and the mirror image, with scheduling points right after BEGIN / COMMIT / ROLLBACK; '
+                'afterwards the contents read through the API are those the block alone leaves, the bookkeeping is consistent and check() is silent.')
     stats = new_stats()
     t0 = _time.time()
     thorough = (not ctx.quick) or big
@@ -713,6 +952,7 @@ def run(ctx, big=False):
             res.extra.setdefault('witnesses_no_longer_failing', []).append(sig)
     for case in corpus():
         run_case(ctx, res, stats, case, 'corpus')
+    maintenance(ctx, res, stats, thorough, _time.time() + (60 if not thorough else 240))
     for n, case in enumerate(handover_cases(ctx)):
         run_case(ctx, res, stats, case, 'handover:%d' % n, record=n < 10)
         if c05.enough(res, ID, EXPECTED_SIGS):
@@ -732,7 +972,9 @@ def run(ctx, big=False):
         'other_clients_events_inside_open_blocks': stats['foreign_events_inside_blocks'],
         'other_clients_begin_attempts_inside_open_blocks': stats['foreign_begin_attempts_inside_blocks'],
         'abort_snapshots_compared': stats['abort_snapshots_compared'],
-        'step_budget_overflows': stats['overflow'], 'violations_by_sig': stats['known_by_sig'], 'trace_records': len(TRACE_RECORDS)})
+        'step_budget_overflows': stats['overflow'], 'violations_by_sig': stats['known_by_sig'], 'trace_records': len(TRACE_RECORDS),
+        'maintenance_cases': stats.get('maintenance_cases'), 'maintenance_check_outcomes': stats.get('maintenance_check_outcomes'),
+        'maintenance_cut_short': stats.get('maintenance_cut_short', False)})
     res.extra_private = {'trace_records': TRACE_RECORDS}
     if not ctx.search_mode:
         correspondence(ctx, res, TRACE_RECORDS)
@@ -876,6 +1118,18 @@ def search(ctx, broken):
 
 def replay(payload):
     case = payload.get('case', {})
+    if case.get('check') == 'maintenance':
+        ctx = fw.Ctx('C06', 'quick', 1)
+        try:
+            viol, r = maint_check(ctx, case)
+            for i, recs in enumerate(r['calls']):
+                for rec in recs:
+                    print('client %d call %d: %s -> %s' % (i, rec['index'], rec['op'], rec.get('result', rec.get('exc', 'skipped'))))
+            print('steps:', ''.join(str(c) for c in r['schedule_used'][:200]))
+            print('monitor:', viol)
+            return not viol
+        finally:
+            ctx.cleanup()
     if case.get('check') != 'block':
         print(payload)
         return True
